@@ -123,7 +123,7 @@ public:
 
 // ---------------------------------------------------------------- allocation-size observation (C14)
 // Requests whose size is driven by parsed numbers are recorded; harnesses assert on the maximum.
-extern long long qm_alloc_max;
+inline long long qm_alloc_max = 0;
 #ifndef QM_ALLOC_LIMIT
 #define QM_ALLOC_LIMIT (1LL << 26)
 #endif
@@ -1210,8 +1210,8 @@ template<typename A, typename B> QPair<A, B> qMakePair(const A &a, const B &b) {
 // Time is (day number, millisecond of day).  The wall clock is harness-controlled: qm_clock_day/qm_clock_ms.
 // toString(): the only exact format is "yyyy-MM-dd" (needed for file names) inside the window
 // 2024-05-10 + [0..15]; every other format is an opaque single private-use code unit (Qt's text is assumed).
-extern int qm_clock_day;     // days since 2024-05-10
-extern int qm_clock_ms;
+inline int qm_clock_day = 0;     // days since 2024-05-10
+inline int qm_clock_ms = 0;
 #define QM_DAY_INVALID (-100000)
 class QDate
 {
